@@ -4,6 +4,7 @@ package gwx
 
 import (
 	"bytes"
+	"context"
 	"encoding/json"
 	"fmt"
 	"net/http"
@@ -132,6 +133,11 @@ type Response struct {
 
 // Post sends a body through gw.Handler; panics in the calling goroutine are recovered and reported.
 func Post(gw *pebbles.Gateway, body []byte, contentType string, timeout time.Duration) *Response {
+	return PostCtx(context.Background(), gw, body, contentType, timeout)
+}
+
+// PostCtx is Post with the context of the client's request (a client that gave up, a deadline set in front of the gateway).
+func PostCtx(ctx context.Context, gw *pebbles.Gateway, body []byte, contentType string, timeout time.Duration) *Response {
 	done := make(chan *Response, 1)
 	go func() {
 		res := &Response{}
@@ -141,7 +147,7 @@ func Post(gw *pebbles.Gateway, body []byte, contentType string, timeout time.Dur
 			}
 			done <- res
 		}()
-		req := httptest.NewRequest("POST", "/graphql", bytes.NewReader(body))
+		req := httptest.NewRequest("POST", "/graphql", bytes.NewReader(body)).WithContext(ctx)
 		if contentType != "" {
 			req.Header.Set("Content-Type", contentType)
 		}
